@@ -189,12 +189,14 @@ def r1(repo, res):
         doc = pm.write("<illumina>", None, dict(regions), _GR("22", 500, 530), "hg19", {})
         ok = doc.get("G") == {"e1": [10, 15], "i1": [7]} and doc.get("neutral", {}).get("value") == 30
         found = f"pseudo-profile {doc.get('G')}, neutral {doc.get('neutral')}"
-        pm.files["aldy.resources.profiles/illumina.yml"] = {"neutral": {"value": 786, "hg19": ["22", 1, 787]}, "G": {"e1": [10, 15]}}
-        gene = Obj(name="G", genome="hg19", regions=[{"e1": _GR("22", 10, 20)}])
-        p1 = pm.load(gene, "illumina", _GR("22", 600, 640))
-        p0 = pm.load(gene, "illumina")
-        ok = ok and p1.neutral_value == 40 and tuple(p1.cn_region) == ("22", 600, 640) and p0.neutral_value == 786 and tuple(p0.cn_region) == ("22", 1, 787)
-        found += f"; illumina with a custom region: neutral value {p1.neutral_value} over {tuple(p1.cn_region)}; without: {p0.neutral_value}"
+        for genome, dflt in (("hg19", ("22", 1, 787)), ("hg38", ("22", 5001, 5787))):
+            pm.reset_state()
+            pm.files["aldy.resources.profiles/illumina.yml"] = {"neutral": {"value": 786, "hg19": ["22", 1, 787], "hg38": ["22", 5001, 5787]}, "G": {"e1": [10, 15]}}
+            gene = Obj(name="G", genome=genome, regions=[{"e1": _GR("22", 10, 20)}])
+            p1 = pm.load(gene, "illumina", _GR("22", 600, 640))
+            p0 = pm.load(gene, "illumina")
+            ok = ok and p1.neutral_value == 40 and tuple(p1.cn_region) == ("22", 600, 640) and p0.neutral_value == 786 and tuple(p0.cn_region) == dflt
+            found += f"; illumina/{genome} with a custom region: neutral value {p1.neutral_value} over {tuple(p1.cn_region)}; without: {p0.neutral_value} over {tuple(p0.cn_region)}"
     except Unfoldable as e:
         res.err("C07.R1", f"Profile class outside the folding language: {e}")
         return
